@@ -79,7 +79,7 @@ func init() {
 			"state (per key the in-flight transaction's new value is admitted), one more commit made, closed, reopened and read again; every prefix of the recovery's own mutation log up to the return of Open is crashed again (nested). " +
 			"states = distinct images, transitions = file-system mutations, evaluations = recovery runs",
 		Assumptions: crashAssumptions,
-		QuickS:      75, ThoroughS: 1800,
+		QuickS:      150, ThoroughS: 1800,
 	}
 	Props["C04"] = &PropMeta{
 		Units: func(t string) []Unit { return crashUnits("C04", t) },
@@ -93,6 +93,6 @@ func init() {
 		Rule: "every crash image of the workloads' explored schedules x every truncation (byte granularity) of every file with bytes written after its last fsync (products when two files are dirty at once); " +
 			"each recovered with the real Open: Open must succeed, every acknowledged commit must be visible, further commits retained",
 		Assumptions: crashAssumptions,
-		QuickS:      75, ThoroughS: 1800,
+		QuickS:      100, ThoroughS: 1800,
 	}
 }
